@@ -18,7 +18,10 @@ HOSTS = ['a.test', 'A.Test', 'a.test:8080', '[::1]', '[2001:db8::1]:81', '10.0.0
 SEGS = ['a', 'b', 'index.html', '.', '..', '%2e', '%2E%2E', '%2e%2e', '%2F', '%2f..%2f..%2fetc', 'a%2Fb', '%5C', '%5c..%5c',
         '\\', '..\\..', '%00', 'x%00y', '%0a', '%0d%0a', '%01', '%7f', '%80', 'é', '日本', 'a b', ' ', '.hidden', 'a.', 'a ',
         'CON', 'nul.txt', 'x' * 300, 'é' * 120, '%25', '%252e%252e', '~', '*', '?', 'a:b', 'a|b', '<x>', '"q"', '%2e%2e%2f',
-        '...', '. .', '%20', '%2E%20', '-', '+']
+        '...', '. .', '%20', '%2E%20', '-', '+',
+        # compatibility characters that Unicode normalisation folds into dots and slashes
+        '%E2%80%A5', '%EF%BC%8F', '%E2%80%A4', '%EF%BC%8E', '%EF%B9%92', '\u2025', '\uff0f', 'a%EF%BC%8Fb', '%E2%80%A4%E2%80%A4',
+        '%EF%BC%8E%EF%BC%8E', '%EF%BC%BC', '..%EF%BC%8F']
 QUERIES = ['', '', '', 'a=1', 'p=/etc/passwd', 'x=../../y', 'q=a%2Fb', 'q=%2e%2e', 'a=1&b=2', 'x=' + 'y' * 400, 'é=ü', '/', '..',
            'q=a\\b']
 DISPOSITIONS = [None, None, 'attachment; filename=report.pdf', 'attachment; filename="a b.txt"', 'attachment; filename=../../evil',
